@@ -27,7 +27,11 @@ def feed_pattern(rnd):
         return ([1 << 16], 0)
     if k < 0.8:
         return ([rnd.choice([1, 3, 7, 100, 4095, 4096, 65537, 70000]) for _ in range(5)], 0)
-    return ([rnd.choice([1000, 30000, 65536, 99999, 100000, 100001]) for _ in range(3)], rnd.choice([0, 0.0005, 0.002]))
+    pat = ([rnd.choice([1000, 30000, 65536, 99999, 100000, 100001]) for _ in range(3)], rnd.choice([0, 0.0005, 0.002]))
+    if rnd.random() < 0.5:
+        # the producer goes quiet once, somewhere inside the input (long enough for any "input is idle" heuristic)
+        pat = pat + ([(rnd.random(), rnd.choice([0.3, 0.45]))],)
+    return pat
 
 
 def bad_ending(ctx, r, what, files=None, info=None, key_prefix=''):
